@@ -44,7 +44,7 @@ class Ctx:
     def __init__(self, prog, body, extra_facts=None, param_notes=None):
         self.prog = prog
         self.body = body
-        self.an = analysis(prog, body)
+        self.an = analysis(prog, body, positions=True)
         sp = 99
         for i in range(1, body.argc + 1):
             ty = body.locals[i]["ty"]
@@ -56,6 +56,8 @@ class Ctx:
         self.extra = list(extra_facts or [])       # Poly >= 0 facts valid everywhere in the body
         self.notes = dict(param_notes or {})
         self._facts = {}
+        self.alternatives = []     # alternative fact sets (one must hold): see param_invariants
+        self.volatile = self.volatile_names()
         self._tv = {}
         self.used_audited = {}     # audited implication -> set of instance notes
         self._path = None
@@ -66,6 +68,91 @@ class Ctx:
             except Exception:
                 pass
         self.param_invariants()
+
+    GROW_ONLY = ("Vec::<T, A>::push", "Vec::<T, A>::extend_from_slice", "Extend::extend", "Vec::<T, A>::insert", "Vec::<T, A>::reserve",
+                 "<impl [T]>::sort_unstable_by_key", "<impl [T]>::sort_by_key", "<impl [T]>::sort_unstable", "<impl [T]>::sort",
+                 "<impl [T]>::sort_unstable_by", "<impl [T]>::sort_by", "<impl [T]>::iter_mut", "IndexMut::index_mut", "<impl [T]>::reverse",
+                 "<impl [T]>::swap", "<impl [T]>::copy_from_slice", "<impl [T]>::fill", "DerefMut::deref_mut", "Vec::<T, A>::as_mut_slice",
+                 "IntoIterator::into_iter", "<impl [T]>::chunks_exact_mut", "<impl [T]>::last_mut", "<impl [T]>::first_mut", "<impl [T]>::get_mut",
+                 "Iterator::next", "Iterator::by_ref", "String::push", "String::push_str")
+
+    def volatile_names(self):
+        """canonical names of sequence locals whose length may SHRINK somewhere in this body (a `&mut` borrow of the
+        local reaches a call that is not known to only grow / permute it).  The analysis names values, not program
+        points, so a length fact established before such a call would be applied after it: every fact that mentions
+        such a local is discarded instead (sound, imprecise)."""
+        out = set()
+        body, tm = self.body, self.an.terms
+
+        def base_local(t):
+            while True:
+                if t[0] in ("ref", "deref"):
+                    t = t[1]
+                elif t[0] == "mut":
+                    return ("mut", t[1]), t
+                elif t[0] in ("param", "var"):
+                    return (t[0], t[1]), t
+                elif t[0] == "call" and short(t[1]) in ("DerefMut::deref_mut", "Deref::deref", "Vec::<T, A>::as_mut_slice") and t[2]:
+                    t = t[2][0]
+                else:
+                    return None, None
+
+        def seq_ty(l):
+            ty = body.locals[l]["ty"]
+            while ty.get("k") == "ref":
+                ty = ty["t"]
+            return ty.get("k") in ("slice", "str") or (ty.get("k") == "adt" and ty.get("p", "").split("::")[-1] in ("Vec", "String", "VecDeque"))
+        for bb, t in body.calls():
+            s_ = short(cname(t))
+            for i, a in enumerate(t["args"]):
+                if a.get("k") not in ("move", "copy"):
+                    continue
+                l0 = a["p"]["l"]
+                lty = body.locals[l0]["ty"]
+                if not (lty.get("k") == "ref" and lty.get("m")):
+                    continue
+                term = tm.operand(a)
+                key, bt = base_local(term)
+                if key is None or not seq_ty(key[1]):
+                    continue
+                if s_ in self.GROW_ONLY and i == 0:
+                    continue
+                if s_ == "Vec::<T, A>::append" and i == 0:
+                    continue
+                out.add(self.sy.name(bt))
+        # places overwritten through a reference or inside a parameter (`*input = &input[2..]`, `c.pos += 1`): the
+        # canonical name of the place denotes both the old and the new value
+        for bi, si, st in body.stmts():
+            if st["k"] != "assign":
+                continue
+            pl = st["p"]
+            if not pl["pr"]:
+                continue
+            if any(e["k"] == "deref" for e in pl["pr"]) or 1 <= pl["l"] <= body.argc:
+                try:
+                    out.add(self.sy.name(tm.place(pl)))
+                except Exception:
+                    pass
+        # a local redefined in terms of itself outside a loop (`t = &t[3..]`)
+        for l in range(body.argc + 1, len(body.locals)):
+            defs = tm.defs.whole[l]
+            if len(defs) < 2:
+                continue
+            for (bi, si, x) in defs:
+                try:
+                    dt = tm.call_term(x, bi) if si == "t" else tm.rvalue(x)
+                except Exception:
+                    continue
+                if any(y[0] in ("var", "mut") and y[1] == l for y in walk(dt)):
+                    out.add(self.sy.name(("var", l)))
+                    break
+        return out
+
+    def mentions_volatile(self, text):
+        for nm in self.volatile:
+            if re.search(r"(?<![\w.])%s(?![\w])" % re.escape(nm), text):
+                return True
+        return False
 
     def param_invariants(self):
         """facts that hold for parameters of a private-struct type (constructor census)"""
@@ -84,10 +171,21 @@ class Ctx:
                 continue
             cf = invariants.constructor_facts(self.prog, adt, "arg%d" % i)
             if cf:
-                facts, boxes = cf
-                self.extra.extend(facts)
-                for k, v in boxes.items():
-                    self.sy.sym_box.setdefault(k, v)
+                if len(cf) == 1:
+                    self.extra.extend(cf[0][0])
+                else:
+                    # the value was built along one of several paths: obligations must hold under each alternative
+                    self.alternatives = [facts for facts, _ in cf] if not self.alternatives else \
+                        [x + y for x in self.alternatives for (y, _) in cf][:16]
+                for facts, boxes in cf:
+                    for k, v in boxes.items():
+                        old_ = self.sy.sym_box.get(k)
+                        if old_ is None:
+                            self.sy.sym_box[k] = v
+                        else:
+                            lo_ = None if old_[0] is None or v[0] is None else min(old_[0], v[0])
+                            hi_ = None if old_[1] is None or v[1] is None else max(old_[1], v[1])
+                            self.sy.sym_box[k] = (lo_, hi_)
             a = self.prog.adts[adt]
             for fi, f in enumerate(a["variants"][0]["fields"]):
                 if f["ty"].get("k") == "adt" and f["ty"]["p"].endswith("::Vec"):
@@ -204,6 +302,10 @@ class Ctx:
                         ne.append(p)
                 else:
                     other.append(a)
+        if self.volatile:
+            ge = [p for p in ge if not self.mentions_volatile(str(p))]
+            ne = [p for p in ne if not self.mentions_volatile(str(p))]
+            other = [a for a in other if not self.mentions_volatile(atom_str(a))]
         self._facts[bb] = (ge, ne, other)
         return self._facts[bb]
 
@@ -227,6 +329,10 @@ class Ctx:
                         ne.append(p)
                 else:
                     other.append(a)
+        if self.volatile:
+            ge = [p for p in ge if not self.mentions_volatile(str(p))]
+            ne = [p for p in ne if not self.mentions_volatile(str(p))]
+            other = [a for a in other if not self.mentions_volatile(atom_str(a))]
         self._path_facts = (ge, ne, other)
 
     def leave_path(self):
@@ -255,7 +361,10 @@ class Ctx:
         ge, ne, other = self.facts_at(bb)
         ge = list(ge)
         for _ in range(2):
-            ge += self.derived(bb, ge, ne, other, goal_polys)
+            dv = self.derived(bb, ge, ne, other, goal_polys)
+            if self.volatile:
+                dv = [p for p in dv if not self.mentions_volatile(str(p))]
+            ge += dv
         box = self.box(list(ge) + list(goal_polys))
         return Prover(ge, box), ne, other
 
@@ -349,6 +458,25 @@ class Ctx:
                 if mm:
                     add(self.len_sym(mm.group(1)) - Poly.const(1) - Poly.sym(name))
                 add(Poly.sym(name))
+            if name.startswith("(Iterator::next(mut(Range{") or name.startswith("(Iterator::next(mut(RangeInclusive"):
+                # loop variable of `for i in lo..hi` / `lo..=hi`
+                tt_ = sy.sym_terms.get(name)
+                rg_ = None
+                if tt_ is not None:
+                    x_ = unmut(tt_)
+                    if x_[0] == "field" and x_[2] == 0 and unmut(x_[1])[0] == "downcast":
+                        nx_ = unmut(unmut(x_[1])[1])
+                        if nx_[0] == "call" and short(nx_[1]) == "Iterator::next":
+                            it_ = unmut(nx_[2][0])
+                            while it_[0] == "call" and short(it_[1]) == "IntoIterator::into_iter" and it_[2]:
+                                it_ = unmut(it_[2][0])
+                            if it_[0] == "aggr" and it_[1].endswith("Range::Range") and len(it_[2]) == 2:
+                                rg_ = (sy.poly(it_[2][0]), sy.poly(it_[2][1]), 1)
+                            elif it_[0] == "call" and short(it_[1]) == "RangeInclusive::<Idx>::new" and len(it_[2]) == 2:
+                                rg_ = (sy.poly(it_[2][0]), sy.poly(it_[2][1]), 0)
+                if rg_ is not None and rg_[0] is not None and rg_[1] is not None:
+                    add(Poly.sym(name) - rg_[0])
+                    add(rg_[1] - Poly.const(rg_[2]) - Poly.sym(name))
             if name.startswith("Option::<T>::unwrap_or(Iterator::position("):
                 for f_ in self.position_or_default(name, ge, other):
                     add(f_)
@@ -477,7 +605,7 @@ class Ctx:
         if len(upd) != 1 or len(init) != 1 or upd[0][1] == "t":
             return False
         u = strip(tm.rvalue(upd[0][2]))
-        ok = (u[0] == "bin" and u[1] == "BitXor" and strip(u[2]) == ("var", l))
+        ok = (u[0] == "bin" and u[1] == "BitXor" and is_var(strip(u[2]), l))
         if ok:
             sh = strip(u[3])
             ok = sh[0] == "bin" and sh[1] == "Shl" and strip(sh[2])[0] == "const" and strip(sh[2])[1] == 1
@@ -485,7 +613,7 @@ class Ctx:
                 amt = strip(sh[3])
                 ok = (amt[0] == "bin" and amt[1] == "Sub" and strip(amt[2])[0] == "const"
                       and strip(amt[3])[0] == "call" and short(strip(amt[3])[1]).endswith("::leading_zeros")
-                      and strip(strip(amt[3])[2][0]) == ("var", l))
+                      and is_var(strip(strip(amt[3])[2][0]), l))
                 if ok:
                     bits = int(re.search(r"impl u(\d+)>", strip(amt[3])[1]).group(1))
                     ok = strip(amt[2])[1] == bits - 1
@@ -498,7 +626,7 @@ class Ctx:
         if ht["k"] != "switch":
             return False
         c = as_cmp(tm.operand(ht["d"]), True)
-        if not (c and c[0] == "Ne" and strip(c[1]) == ("var", l) and strip(c[2])[0] == "const" and strip(c[2])[1] == 0):
+        if not (c and c[0] == "Ne" and is_var(strip(c[1]), l) and strip(c[2])[0] == "const" and strip(c[2])[1] == 0):
             return False
         if need_single_push:
             pushes = [b for b, t_ in body.calls() if b in lp[0][2] and short(cname(t_)) == "Vec::<T, A>::push"]
@@ -698,6 +826,7 @@ def collect(ctx, res=None):
         if blk["cleanup"]:
             continue
         t = blk["t"]
+        an.terms._pos = (bb, "t")
         if t["k"] == "assert":
             if t["mk"].startswith(("other:MisalignedPointerDereference", "other:NullPointerDereference")) and \
                     any(short(cname(c)) == "Box::<T>::new_uninit" for _, c in body.calls()):
@@ -802,6 +931,11 @@ def seq_len_poly(ctx, t):
             return Poly.const(ty["n"])
     # opaque: len(name) symbol (with the field invariant if the sequence is an accessor's result)
     return ctx.len_sym(sy.name(t0))
+
+
+def is_var(x, l):
+    """x is a read of the multi-definition local l (with or without a position tag)"""
+    return isinstance(x, tuple) and len(x) >= 2 and x[0] == "var" and x[1] == l
 
 
 def stateful(t):
@@ -1187,7 +1321,113 @@ def loop_class(ctx, o):
             p = sy.poly(c[1])
             if p is not None and len(p.syms()) == 1 and ctx.clears_top_bit_loop(p.syms()[0]):
                 return True, "audited: each iteration clears the highest set bit of the loop variable (strictly decreasing)"
-    return False, "no finite iterator drives the loop"
+    ok, how = counter_driven(ctx, o, loop)
+    if ok:
+        return True, how
+    return False, "no finite iterator drives the loop" + (" (%s)" % how if how else "")
+
+
+def counter_driven(ctx, o, loop):
+    """`while i < B { ..; i += k }`: the header compares a loop-carried integer with a bound that the loop does not
+    modify, every definition of the integer inside the loop adds a positive constant, and one of them is executed on
+    every iteration (it dominates the back edge)"""
+    body, an = ctx.body, ctx.an
+    # the exit test: a switch inside the loop with one edge leaving it, executed on every iteration
+    hb = None
+    for b_ in sorted(loop):
+        t_ = body.blocks[b_]["t"]
+        if t_["k"] == "switch" and body.dominates(b_, o.tail):
+            ss_ = body.succ(b_)
+            if len([x for x in ss_ if x in loop]) == 1 and len([x for x in ss_ if x not in loop]) == 1:
+                hb = b_
+                break
+    if hb is None:
+        return False, ""
+    ht = body.blocks[hb]["t"]
+    c = as_cmp(an.terms.operand(ht["d"]), True)
+    if not c or c[0] not in ("Lt", "Le", "Gt", "Ge"):
+        return False, ""
+    op, a, b = c
+    if op in ("Gt", "Ge"):
+        op, a, b = {"Gt": "Lt", "Ge": "Le"}[op], b, a
+    a0 = strip(a)
+    # i  or  i + const on the left
+    if a0[0] == "field" and a0[2] == 0 and strip(a0[1])[0] == "bin" and strip(a0[1])[1].startswith("Add"):
+        a0 = strip(a0[1])
+    if a0[0] == "bin" and a0[1].startswith("Add"):
+        x, y = strip(a0[2]), strip(a0[3])
+        if y[0] == "const":
+            a0 = x
+        elif x[0] == "const":
+            a0 = y
+        else:
+            # i + p + q with loop-invariant p, q: take the var operand
+            inner = [z for z in walk(a0) if z[0] == "var"]
+            a0 = inner[0] if len(set(inner)) == 1 else a0
+    if a0[0] != "var":
+        return False, "loop condition does not compare a loop counter"
+    l = a0[1]
+    # which edge stays in the loop: the comparison must hold to continue
+    succs = body.succ(hb)
+    stay = [s_ for s_ in succs if s_ in loop]
+    leave = [s_ for s_ in succs if s_ not in loop]
+    if len(stay) != 1 or len(leave) != 1:
+        return False, "loop header has no single exit"
+    d, rel, vals = an.edge_atom(hb, stay[0])
+    tr = truth_of(rel, vals)
+    cc = as_cmp(d, tr) if tr is not None else None
+    if not cc:
+        return False, ""
+    cop = cc[0]
+    if cop in ("Gt", "Ge"):
+        cop = {"Gt": "Lt", "Ge": "Le"}[cop]
+        ok_dir = any(is_var(z, l) for z in walk(strip(cc[2])))
+    else:
+        ok_dir = cop in ("Lt", "Le") and any(is_var(z, l) for z in walk(strip(cc[1])))
+    if not ok_dir:
+        return False, "the loop continues while the counter is NOT below the bound"
+    # definitions of the counter inside the loop: counter + positive constant
+    defs_in = [(bi, si, x) for (bi, si, x) in an.terms.defs.whole[l] if bi in loop]
+    if not defs_in or an.terms.defs.partial[l] or an.terms.defs.mut_borrowed[l]:
+        return False, "counter is not updated by plain assignments"
+    for (bi, si, x) in defs_in:
+        if si == "t":
+            return False, "counter assigned from a call"
+        dt = strip(an.terms.rvalue(x))
+        if dt[0] == "field" and dt[2] == 0:
+            dt = strip(dt[1])
+        if not (dt[0] == "bin" and dt[1].startswith("Add")):
+            return False, "counter update is not an addition"
+        x_, y_ = strip(dt[2]), strip(dt[3])
+        if is_var(x_, l):
+            inc = y_
+        elif is_var(y_, l):
+            inc = x_
+        else:
+            return False, "counter update does not add to the counter"
+        if not (inc[0] == "const" and isinstance(inc[1], int) and inc[1] >= 1):
+            pi = ctx.sy.poly(inc)
+            if pi is None:
+                return False, "increment is not a positive constant"
+            okp, _ = ctx.prove_ge0(bi, pi - Poly.const(1))
+            if not okp:
+                return False, "increment is not proved positive"
+    if not any(body.dominates(bi, o.tail) for (bi, si, x) in defs_in):
+        return False, "an iteration can skip the counter update"
+    # the bound must not change inside the loop
+    bound = strip(cc[2]) if cop in ("Lt", "Le") and any(is_var(z, l) for z in walk(strip(cc[1]))) else strip(cc[1])
+    for z in walk(bound):
+        if z[0] in ("var", "mut"):
+            l2 = z[1]
+            if any(bi in loop for (bi, si, x) in an.terms.defs.whole[l2]) or any(bi in loop for (bi, si, x) in an.terms.defs.partial[l2]):
+                return False, "the bound is modified inside the loop"
+            if z[0] == "mut":
+                for bb2, t2 in body.calls():
+                    if bb2 in loop and any(a_.get("k") in ("move", "copy") and any(w == z for w in walk(an.terms.operand(a_))) for a_ in t2["args"]):
+                        return False, "the bound's storage is borrowed inside the loop"
+    if ctx.mentions_volatile(ctx.sy.name(bound)):
+        return False, "the bound may shrink or be overwritten"
+    return True, "counter-driven: bounded counter increased by a positive amount on every iteration"
 
 
 def finite_iter(ctx, it, depth=0):
@@ -1221,6 +1461,26 @@ def finite_iter(ctx, it, depth=0):
 
 # ---------------------------------------------------------------------- discharge
 def discharge(ctx, o, audited=None):
+    if ctx.alternatives and not getattr(ctx, "_in_alt", False):
+        base = list(ctx.extra)
+        ctx._in_alt = True
+        hows = []
+        try:
+            for alt in ctx.alternatives:
+                ctx.extra = base + list(alt)
+                ctx._facts = {}
+                discharge(ctx, o, audited)
+                if o.verdict == "OPEN":
+                    o.how = "under one of the %d ways the parameter can have been constructed: %s" % (len(ctx.alternatives), o.how)
+                    return o
+                hows.append(o.how)
+            o.how = "%s (for each of %d construction alternatives)" % (hows[0], len(ctx.alternatives))
+            return o
+        finally:
+            ctx.extra = base
+            ctx._facts = {}
+            ctx._in_alt = False
+    ctx.an.terms._pos = (o.bb, "t")       # operands of the obligation's terminator are read there
     try:
         if o.kind == "assert":
             ok, how = ctx.prove_bool(o.bb, o.term, o.expected)
@@ -1348,7 +1608,7 @@ def path_sensitive(ctx, o, limit=None):
     """retry the obligation on every acyclic path to the site (loop bodies entered at most once)"""
     from .sym import forward_paths
     paths = forward_paths(ctx.an, o.bb, limit=limit or PATH_LIMIT[0])
-    if not paths or len(paths) < 2:
+    if not paths:
         return False, ""
     n = 0
     for path in paths:
